@@ -2049,8 +2049,15 @@ func (p *Parser) parseStatement() (ast.Statement, error) {
 
 			// Check for index assignment after field: $ obj.field[0] = value
 			if p.check(LBRACKET) {
+				// target may already be a path (o.p): its first part is the
+				// variable, the rest are fields of it.
+				parts := strings.Split(target, ".")
+				var object ast.Expr = ast.VariableExpr{Name: parts[0]}
+				for _, part := range parts[1:] {
+					object = ast.FieldAccessExpr{Object: object, Field: part}
+				}
 				base := ast.FieldAccessExpr{
-					Object: ast.VariableExpr{Name: target},
+					Object: object,
 					Field:  fieldName,
 				}
 				lvalue, err := p.parseLValueExpr(base)
